@@ -701,6 +701,7 @@ func genC12(c *Ctx) {
 
 func genC13(c *Ctx) {
 	sequtilRound4_13(c)
+	from2bitWordsAndPrefixes(c)
 	sequtilExtras13(c)
 	for b := 0; b < 256; b++ {
 		got := sequtil.Ntoi(byte(b))
